@@ -784,6 +784,11 @@ func makeUpdateStrategyMap(resources *dynamicdiscovery.ResourceMap, dc *v1alpha1
 func parentQueueKey(obj interface{}) (string, error) {
 	switch o := obj.(type) {
 	case cache.DeletedFinalStateUnknown:
+		// The tombstone's key is only namespace/name; build our own kind of key
+		// from the last known state of the object when we have it.
+		if parent, ok := o.Obj.(*unstructured.Unstructured); ok {
+			return parentQueueKey(parent)
+		}
 		return o.Key, nil
 	case cache.ExplicitKey:
 		return string(o), nil
